@@ -42,11 +42,13 @@ typedef struct {
     int deep;                      /* long first signal: statistics requests reach summary levels 1 and 2 */
     uint64_t *fo, *fc; size_t nf;  /* family a: focus byte ranges [fo[i], fo[i+1]) start at cumulative bit fc[i]; */
     uint64_t abits;                /* non-deep files: the whole file */
+    int big;                       /* holds a user-data chunk and an annotation above 1 MiB: larger than a reader's initial chunk buffer */
+    size_t bigreg[8]; size_t nbig; /* their payload regions */
     char feat[200];
 } plan_t;
 
 static int g_file_has_omission;
-static void build_small(prog_t *p, rng_t *r, char *feat, size_t featn, int omission, int deep) {
+static void build_small(prog_t *p, rng_t *r, char *feat, size_t featn, int omission, int deep, int big) {
     prog_add_source(p, 1, "flip-src");
     static const char *ta[] = {"f32", "f64", "i16", "u32", "i24"};
     static const char *td[] = {"f32", "i16", "i24", "u16"};
@@ -80,17 +82,23 @@ static void build_small(prog_t *p, rng_t *r, char *feat, size_t featn, int omiss
         if (pb < nB) { int64_t c = rng_range(r, 1, nB / 4 + 1); if (c > nB - pb) c = nB - pb; op_t *o = prog_add(p, OP_FSR); o->id = 9; o->sid = pb; o->n = (uint32_t) c; o->vseed = rng_u64(r); pb += c; }
         if (k < 9) { op_t *a = prog_add(p, OP_ANNO); a->id = (k & 1) ? 3 : 0; a->ts = (k & 1) ? fa + pa - 1 : k; a->y = 1.25f; a->atype = (uint8_t) (k & 3); a->stype = (uint8_t) (1 + k % 3); a->dsize = (uint32_t) rng_range(r, 1, 20); a->dseed = rng_u64(r); a->group = (uint8_t) k; }
         if (k < 6) { op_t *u = prog_add(p, OP_UTC); u->id = 3; u->sid = fa + pa - 1; u->utc = JLS_TIME_SECOND * 100 + pa * 1000; }
+        if (big && k == 1) {
+            /* one user-data chunk and one annotation that no reader has room for until it has grown its buffer */
+            op_t *u = prog_add(p, OP_USER); u->meta = 0x077; u->stype = JLS_STORAGE_TYPE_BINARY; u->dsize = (uint32_t) ((1 << 20) + rng_range(r, 1, 1 << 20)); u->dseed = rng_u64(r);
+            op_t *a = prog_add(p, OP_ANNO); a->id = 3; a->ts = fa + pa - 1; a->y = 2.5f; a->atype = 0; a->stype = rng_chance(r, 1, 2) ? JLS_STORAGE_TYPE_BINARY : JLS_STORAGE_TYPE_STRING;
+            a->dsize = (uint32_t) ((1 << 20) + rng_range(r, 1, 1 << 19)); a->dseed = rng_u64(r); a->group = 77;
+        }
         if (k == 2 || k == 5) { op_t *u = prog_add(p, OP_USER); u->meta = (uint16_t) (0x100 + k); u->stype = (uint8_t) (1 + k % 3); u->dsize = (uint32_t) rng_range(r, 1, 40); u->dseed = rng_u64(r); }
         ++k;
     }
-    snprintf(feat, featn, "%s+%s|offset=%lld|constant-blocks=%d|deep=%d", t1->name, t2->name, (long long) d1.sample_id_offset, omission, deep);
+    snprintf(feat, featn, "%s+%s|offset=%lld|constant-blocks=%d|deep=%d|big-chunks=%d", t1->name, t2->name, (long long) d1.sample_id_offset, omission, deep, big);
 }
 
-static int make_plan(plan_t *pl, rng_t *r, const char *path, int omission, int deep) {
+static int make_plan(plan_t *pl, rng_t *r, const char *path, int omission, int deep, int big) {
     memset(pl, 0, sizeof(*pl));
-    pl->deep = deep;
+    pl->deep = deep; pl->big = big;
     prog_init(&pl->p);
-    build_small(&pl->p, r, pl->feat, sizeof(pl->feat), omission, deep);
+    build_small(&pl->p, r, pl->feat, sizeof(pl->feat), omission, deep, big);
     model_init(&pl->m, &pl->p);
     exec_opts_t eo = {.kind = WR_SYNC, .stop_after = -1};
     if (exec_prog(&pl->p, &pl->m, path, &eo)) return -1;
@@ -108,7 +116,7 @@ static int make_plan(plan_t *pl, rng_t *r, const char *path, int omission, int d
     }
     for (int s = 1; s < 256; ++s) for (int l = 1; l < JD_LEVELS; ++l) if (d.sig[s].summary[JD_TT_FSR][l].n && l > pl->levels) pl->levels = l;
     /* family a focus: everything, except that a deep file's FSR DATA payloads are represented by the first three and the last one */
-    pl->fo = calloc(2 * pl->nreg + 4, sizeof(uint64_t)); pl->fc = calloc(2 * pl->nreg + 4, sizeof(uint64_t));
+    pl->fo = calloc(2 * pl->nreg + 64, sizeof(uint64_t)); pl->fc = calloc(2 * pl->nreg + 64, sizeof(uint64_t));
     {
         size_t ndata = 0, seen = 0;
         for (size_t i = 0; i < pl->nreg; ++i) if (pl->reg[i].kind == 2 && pl->reg[i].tag == 0x22) ndata++;
@@ -116,7 +124,22 @@ static int make_plan(plan_t *pl, rng_t *r, const char *path, int omission, int d
         for (size_t i = 0; i < pl->nreg; ++i) {
             int take = 1;
             if (deep && pl->reg[i].kind == 2 && pl->reg[i].tag == 0x22) { take = seen < 3 || seen + 1 == ndata; seen++; }
+            if (big) {
+                /* every fault on this file costs a copy, a write and a read of several MiB: single-bit flips only where the big chunks are
+                 * (their headers and slices of their payloads) and in the file header; the other files cover the small chunks */
+                int bigpay = pl->reg[i].kind == 2 && pl->reg[i].end - pl->reg[i].off > 65536;
+                int bighdr = pl->reg[i].kind == 1 && i + 1 < pl->nreg && pl->reg[i + 1].kind == 2 && pl->reg[i + 1].end - pl->reg[i + 1].off > 65536;
+                take = bigpay || bighdr || pl->reg[i].kind == 0;
+            }
             if (!take) continue;
+            if (pl->reg[i].kind == 2 && pl->reg[i].end - pl->reg[i].off > 65536) {
+                /* a payload above 1 MiB: single-bit flips in its first 24 bytes, 16 bytes in the middle and the last 16 bytes (pad and CRC included) */
+                if (pl->nbig < 8) pl->bigreg[pl->nbig++] = i;
+                uint64_t a = pl->reg[i].off, e = pl->reg[i].end, m = a + ((e - a) / 2 & ~7ULL);
+                uint64_t sl[3][2] = {{a, a + 24}, {m, m + 16}, {e - 16, e}};
+                for (int q = 0; q < 3; ++q) { pl->fo[2 * pl->nf] = sl[q][0]; pl->fo[2 * pl->nf + 1] = sl[q][1]; pl->fc[pl->nf] = cum; cum += (sl[q][1] - sl[q][0]) * 8; pl->nf++; }
+                continue;
+            }
             pl->fo[2 * pl->nf] = pl->reg[i].off; pl->fo[2 * pl->nf + 1] = pl->reg[i].end; pl->fc[pl->nf] = cum;
             cum += (pl->reg[i].end - pl->reg[i].off) * 8; pl->nf++;
         }
@@ -192,6 +215,7 @@ static int make_fault(const plan_t *pl, const ctx_t *c, uint64_t n, fault_t *f) 
         f->family = 'b';
         const region_t *rg = &pl->reg[rng_below(&r, pl->nreg)];
         if ((n % 4) == 0) rg = &pl->reg[0];
+        if (pl->nbig && (n % 4) == 1) rg = &pl->reg[pl->bigreg[rng_below(&r, pl->nbig)]];
         uint64_t rb = (rg->end - rg->off) * 8;
         int k = (n & 1) ? 3 : 2;
         uint64_t bits[3];
@@ -211,6 +235,7 @@ static int make_fault(const plan_t *pl, const ctx_t *c, uint64_t n, fault_t *f) 
         uint32_t blen = 1 + (uint32_t) (n % 32);
         uint64_t start = rng_below(&r, nbits - blen);
         if ((n % 3) == 0) { const region_t *rg = &pl->reg[rng_below(&r, pl->nreg)]; if (rg->kind == 1) start = rg->off * 8 + rng_below(&r, 32 * 8 - blen + 1); }
+        if (pl->nbig && (n % 3) == 1) { const region_t *rg = &pl->reg[pl->bigreg[rng_below(&r, pl->nbig)]]; start = rg->off * 8 + rng_below(&r, (rg->end - rg->off) * 8 - blen); }
         /* a burst: first and last bit flipped, the ones between random */
         uint8_t tmp[8] = {0};
         for (uint32_t i = 0; i < blen; ++i) { int fl = (i == 0 || i == blen - 1) ? 1 : (int) rng_below(&r, 2); if (fl) tmp[(start % 8 + i) / 8] |= (uint8_t) (1u << ((start % 8 + i) % 8)); }
@@ -246,6 +271,7 @@ static int make_fault(const plan_t *pl, const ctx_t *c, uint64_t n, fault_t *f) 
         f->family = 'e';
         const region_t *rg = &pl->reg[(n / 32) % pl->nreg];
         if ((n / 32 / pl->nreg) % 2) rg = &pl->reg[rng_below(&r, pl->nreg)];
+        if (pl->nbig && (n % 5) == 0) rg = &pl->reg[pl->bigreg[rng_below(&r, pl->nbig)]];
         uint64_t cov, crc_at;
         if (rg->kind == 2) { uint32_t plen; memcpy(&plen, pl->file + rg->off - 32 + 20, 4); cov = plen; crc_at = rg->end - 4; }
         else { cov = 28; crc_at = rg->off + 28; }
@@ -353,9 +379,12 @@ static void run_case(uint64_t idx, void *vctx) {
     jls_quiet();
     plan_t pl;
     const char *path = v_path("flip-orig.jls");
-    int prc = make_plan(&pl, &r, path, (int) (prog & 1), (prog % 3) == 1);
+    int big = (prog % 4) == 2;
+    int prc = make_plan(&pl, &r, path, (int) (prog & 1), (prog % 3) == 1, big);
     unlink(path);
     if (prc) { if (shard == 0) v_note("C04", "file %llu could not be generated cleanly (rc %d): skipped", (unsigned long long) prog, prc); return; }
+    ctx_t cb = *c;
+    if (big) { cb.n_b /= 8; cb.n_c /= 8; cb.n_d /= 8; cb.n_e /= 8; c = &cb; }   /* each fault copies, writes and reads back several MiB */
     uint64_t total = pl.abits + (uint64_t) (c->n_b + c->n_c + c->n_d + c->n_e);
     if (shard == 0) {
         v_count("C04", "files", 1);
